@@ -37,6 +37,31 @@ func (e *Engine) mapBuiltin(env *Env, x *Expr) (Val, bool) {
 			return mkBool("(big_num_ok " + s.T + " #x000000000000000a)"), true
 		}
 		return mk("Obj", "(big_parse "+s.T+" #x000000000000000a)"), true
+	case "nat":
+		// the unsigned value of a machine integer as a mathematical integer
+		x := e.coerceTo(env, e.evalExpr(env, x.Args[0]), BV(64))
+		return mk(SInt, "(bv2nat "+x.T+")"), true
+	case "bigval":
+		// the mathematical value of a *big.Int (see bigint_model.go)
+		v := e.evalExpr(env, x.Args[0])
+		if t, ok := e.bigIntOf(env.st, v); ok {
+			return mk(SInt, t), true
+		}
+		o := e.coerceTo(env, v, "Obj")
+		if arg, ok := bigOfArg(o.T); ok {
+			return mk(SInt, signedIntOfBV(arg)), true
+		}
+		e.C.DeclareFun("big_val", []Sort{"Obj"}, SInt)
+		return mk(SInt, "(big_val "+o.T+")"), true
+	case "imul", "idiv", "iadd", "isub", "imax":
+		a := e.coerceTo(env, e.evalExpr(env, x.Args[0]), SInt)
+		b := e.coerceTo(env, e.evalExpr(env, x.Args[1]), SInt)
+		switch x.Name {
+		case "imax":
+			return mk(SInt, fmt.Sprintf("(ite (< %s %s) %s %s)", a.T, b.T, b.T, a.T)), true
+		}
+		op := map[string]string{"imul": "*", "idiv": "div", "iadd": "+", "isub": "-"}[x.Name]
+		return mk(SInt, fmt.Sprintf("(%s %s %s)", op, a.T, b.T)), true
 	case "calcdiff":
 		// the prescribed difficulty: calc_difficulty(time, pack(parent), bombDelayFromParent) (eth_c18_externs.go)
 		e.C.DeclareFun("calc_difficulty", []Sort{BV(64), "Obj", "Obj"}, "Obj")
